@@ -171,8 +171,8 @@ _extra.append(_variant(_find('c_boxed'), '_na', 'C17', ns_q=[3], ns_t=[3], stubs
 # C17 build half under Kani too: a few contracts with std / alloc disabled
 for _nm in ['c_push_back', 'c_remove', 'c_drain', 'c_extend_from_slice']:
     _b = _find(_nm)
-    _extra.append(_variant(_b, '_nostd', 'C17', ns_q=[2], ns_t=[2], features='--no-default-features', untagged='C17'))
-    _extra.append(_variant(_b, '_alloconly', 'C17', ns_q=[], ns_t=[2], features='--no-default-features --features alloc', untagged='C17'))
+    _extra.append(_variant(_b, '_nostd', 'C17', ns_q=[2], ns_t=[2], features='--no-default-features', untagged=''))
+    _extra.append(_variant(_b, '_alloconly', 'C17', ns_q=[], ns_t=[2], features='--no-default-features --features alloc', untagged=''))
 
 # C18: the same contracts under `--features unstable` (Kani's nightly)
 _C18_QUICK = ['c_new', 'c_from_array_m3', 'c_extend_from_slice', 'c_as_slices', 'c_make_contiguous', 'c_iter_script', 'c_iter_mut_script', 'c_drain', 'c_push_back', 'c_truncate_front']
